@@ -6,8 +6,11 @@ import (
 	"fmt"
 	"os"
 	"path/filepath"
+	"sort"
 	"strings"
 	"time"
+
+	"github.com/compose-spec/compose-go/v2/types"
 
 	"verif/harness/internal/core"
 )
@@ -57,6 +60,11 @@ func C11(c *core.Ctx) {
 		case ee != nil:
 			c.Report(core.Finding{Sig: "explicit-rejected:" + key, Detail: fmt.Sprintf("%s: the explicit document fails to load (%v) — %s", key, ee, explicit), Replay: rep})
 		default:
+			// direct comparison with the specification's explicit document (a defect that hits both loads alike would
+			// cancel in the differential): depends_on of service a, network membership, resource names
+			if d := c11Direct(pi, asMap(cs["explicit"])); d != "" {
+				c.Report(core.Finding{Sig: "defaults-direct:" + key, Detail: fmt.Sprintf("%s: %s — implicit %s", key, d, implicit), Replay: rep})
+			}
 			di, de := projDump(pi), projDump(pe)
 			if di != de {
 				c.Report(core.Finding{Sig: "defaults-differ:" + key, Detail: fmt.Sprintf("%s: implicit %s and explicit %s load to different projects: %s", key, implicit, explicit, firstDiff(di, de)), Replay: rep})
@@ -77,4 +85,94 @@ func C11(c *core.Ctx) {
 		c.Drift(fmt.Sprintf("%d of %d generated cases load in neither form", invalid, n))
 	}
 	c.Set("rule", "a case is a document varying one or two default-able dimensions (implicit / explicit default / explicit different value) of service a and of the top-level resources; two real loads; non-trivial when the explicit document differs from the implicit one")
+}
+
+// c11Direct compares the loaded project with the explicit document computed by the specification, field by field.
+func c11Direct(p *types.Project, explicit map[string]interface{}) string {
+	doc := asMap(explicit["v"])
+	svc := asMap(asMap(asMap(asMap(doc["services"])["v"])["a"])["v"])
+	a := p.Services["a"]
+	// depends_on
+	want := map[string]string{}
+	if d, ok := svc["depends_on"]; ok {
+		for name, e := range asMap(asMap(d)["v"]) {
+			em := asMap(asMap(e)["v"])
+			get := func(k string, dflt string) string {
+				if x, ok := em[k]; ok {
+					return fmt.Sprint(asMap(x)["v"])
+				}
+				return dflt
+			}
+			want[name] = get("condition", "service_started") + "/restart=" + get("restart", "false") + "/required=" + get("required", "true")
+		}
+	}
+	got := map[string]string{}
+	for name, d := range a.DependsOn {
+		got[name] = fmt.Sprintf("%s/restart=%v/required=%v", d.Condition, d.Restart, d.Required)
+	}
+	if fmt.Sprint(got) != fmt.Sprint(want) {
+		return fmt.Sprintf("depends_on of service a is %v; the defaults rules define %v", got, want)
+	}
+	// network membership
+	if n, ok := svc["networks"]; ok {
+		var wn, gn []string
+		for k := range asMap(asMap(n)["v"]) {
+			wn = append(wn, k)
+		}
+		for k := range a.Networks {
+			gn = append(gn, k)
+		}
+		sort.Strings(wn)
+		sort.Strings(gn)
+		if fmt.Sprint(wn) != fmt.Sprint(gn) {
+			return fmt.Sprintf("service a is attached to %v; the rules define %v", gn, wn)
+		}
+	}
+	// resource names
+	for kind, names := range map[string]map[string]string{"networks": netNames(p), "volumes": volNames(p), "secrets": secNames(p)} {
+		if sec, ok := doc[kind]; ok {
+			for k, r := range asMap(asMap(sec)["v"]) {
+				if nm, ok := asMap(asMap(r)["v"])["name"]; ok {
+					if names[k] != asStr(asMap(nm)["v"]) {
+						return fmt.Sprintf("%s.%s is named %q; the rules define %q", kind, k, names[k], asStr(asMap(nm)["v"]))
+					}
+				}
+			}
+		}
+	}
+	if b, ok := svc["build"]; ok && a.Build != nil {
+		bm := asMap(asMap(b)["v"])
+		if x, ok := bm["context"]; ok && !strings.HasSuffix(a.Build.Context, strings.TrimPrefix(asStr(asMap(x)["v"]), ".")) {
+			return fmt.Sprintf("build context is %q; the rules define %q", a.Build.Context, asStr(asMap(x)["v"]))
+		}
+		if x, ok := bm["dockerfile"]; ok && a.Build.Dockerfile != asStr(asMap(x)["v"]) {
+			return fmt.Sprintf("dockerfile is %q; the rules define %q", a.Build.Dockerfile, asStr(asMap(x)["v"]))
+		}
+	}
+	if pp, ok := svc["pull_policy"]; ok && a.PullPolicy != asStr(asMap(pp)["v"]) {
+		return fmt.Sprintf("pull_policy is %q; the rules define %q", a.PullPolicy, asStr(asMap(pp)["v"]))
+	}
+	return ""
+}
+
+func netNames(p *types.Project) map[string]string {
+	m := map[string]string{}
+	for k, v := range p.Networks {
+		m[k] = v.Name
+	}
+	return m
+}
+func volNames(p *types.Project) map[string]string {
+	m := map[string]string{}
+	for k, v := range p.Volumes {
+		m[k] = v.Name
+	}
+	return m
+}
+func secNames(p *types.Project) map[string]string {
+	m := map[string]string{}
+	for k, v := range p.Secrets {
+		m[k] = v.Name
+	}
+	return m
 }
